@@ -883,6 +883,10 @@ class SFTPClient(BaseSFTP, ClosingContextManager):
 
     def _read_response(self, waitfor=None):
         while True:
+            # let go of the previous response's file here, not while holding
+            # the lock below: if that was its last reference, its __del__
+            # sends a close request, which needs the same lock.
+            fileobj = None
             try:
                 t, data = self._read_packet()
             except EOFError as e:
